@@ -8,7 +8,7 @@ from tartiflette import Resolver, Subscription
 
 META = {
     "bounds": "6 subscription documents (alias, fragment, literal/variable/default arguments, nested selection with a non-null leaf) + 3 invalid requests; event sequences of "
-              "length 0..3 over unbounded ints / None (payloads that are well-formed, provoke a field error, or are null); gated source and gated consumer",
+              "length 0..3 (0..2 in the quick tier) over unbounded ints / None (payloads that are well-formed, provoke a field error, or are null); gated source and gated consumer",
     "outside": "more than 3 events per stream; several concurrent subscriptions on one engine (C15 covers execute)",
     "explanation": "Each yielded response is compared with the response the payload must produce (C01/C02 semantics), position by position; source call counter and coerced source arguments checked.",
 }
@@ -116,7 +116,10 @@ def expected_ev(key, e, with_n):
     return {"data": {key: d}}, nerr
 
 
-@obligation(tier="quick", timeout=300, shards=[{"doc": d} for d in range(len(DOCS))],
+SH14 = [{"doc": d, "gated": g, "cgated": c, "maxlen": m} for m in (2, 3) for d in range(len(DOCS)) for g in (1, 0) for c in (1, 0)]
+
+
+@obligation(tier="quick", timeout=300, shards=SH14, quick_shards=[i for i, s in enumerate(SH14) if s["maxlen"] == 2 and ((s["gated"] and s["cgated"]) or s["doc"] == 0)],
             samples=[{"events": [1, None, -1], "arg": 3, "argmode": 1, "gated": True, "cgated": False}, {"events": [], "arg": None, "argmode": 0, "gated": False, "cgated": True}],
             symbolic=["events: List[Optional[int]] (length 0..3, unbounded ints)", "arg: Optional[int] — variable value of the source argument"],
             selectors=["argmode: variable absent / provided", "gated: the source suspends before every event", "cgated: the consumer suspends between responses (interleaved consumption)", "shard: document"],
@@ -128,15 +131,18 @@ def c14_stream(events: List[Optional[int]], arg: Optional[int], argmode: int, ga
     post: _
     """
     q, field, key, fixed_args = DOCS[shard()["doc"]]
-    argmode = pick(argmode, 2)
+    argmode = pick(argmode, 2) if fixed_args is None else 0
     variables = {}
     if fixed_args is None and argmode == 1:
         if arg is not None and not (-I32 <= arg < I32):
             return True          # refused at variable coercion: c14_invalid's subject
         variables["n"] = arg
-    ST["events"] = events; ST["gate"] = pickb(gated)
+    sh = shard()
+    if len(events) > sh["maxlen"]:
+        return True
+    ST["events"] = events; ST["gate"] = bool(sh["gated"])
     del SRC_CALLS[:]; del RES_CALLS[:]
-    ok, got = safe(lambda: env.run(consume(ENG.subscribe(q, variables=variables), pickb(cgated))))
+    ok, got = safe(lambda: env.run(consume(ENG.subscribe(q, variables=variables), bool(sh["cgated"]))))
     observe(got, list(SRC_CALLS))
     if not ok:
         return verdict(False)
